@@ -197,6 +197,10 @@ func (w *walker) check(c cmd, r stepResult) {
 		w.lastView = r.View
 		if c.Op == "bounds" {
 			w.bounds = [2]int64{c.A, c.B}
+		} else if r.OK && (int64(r.View.Start) < w.bounds[0] || int64(r.View.End) > w.bounds[1]) {
+			// not a step, so not a verdict under the statement: counted (it is the
+			// precondition of auto-span:view-outside-bounds and of the recursion crash)
+			w.h.Count("seek_views_outside_bounds", 1)
 		}
 		return
 	}
